@@ -109,7 +109,7 @@ func report(g *Gen, p *PropConfig, bl *Baseline, out *CheckOutcome, tier string,
 	}
 
 	// replay / violation files
-	replayDir := filepath.Join(verif, "replay", p.ID)
+	replayDir := filepath.Join(env("VERIF_REPLAY_DIR", filepath.Join(verif, "replay")), p.ID)
 	var vioLines []string
 	for _, r := range failing {
 		os.MkdirAll(replayDir, 0o755)
@@ -136,11 +136,9 @@ func report(g *Gen, p *PropConfig, bl *Baseline, out *CheckOutcome, tier string,
 			}
 		}
 		os.WriteFile(path, []byte(sb.String()), 0o644)
-		line := fmt.Sprintf("VIOLATION property=%s replay=%s", p.ID, path)
+		line := fmt.Sprintf("VIOLATION property=%s replay=%s obligation=%s", p.ID, path, r.ID)
 		if !rep.Confirmed {
-			line += " obligation=" + r.ID + " no-failing-input-found"
-		} else {
-			line = fmt.Sprintf("VIOLATION property=%s replay=%s", p.ID, rep.File)
+			line += " no-failing-input-found"
 		}
 		vioLines = append(vioLines, line)
 	}
